@@ -299,6 +299,8 @@ GENERIC = [
      "Mutex::lock().unwrap(): poisoning requires a panic while the lock is held; the library code run under the lock is itself in this census, user closures passed to DatabaseHandle::transaction are the listed assumption"),
     ("time-op", lambda e: re.search(r"Add.*::add$", e[1] or "") is not None and len(e[2]) == 2 and mentions_call(e[2][0], r"Instant::now$"),
      "Instant::now() + <configured duration>: overflows only for a configured duration of about 2^63 s; legal configurations are assumed to use representable deadlines (listed assumption)"),
+    ("time-op", lambda e: re.search(r"Div.*::div$|DivAssign.*::div_assign$", e[1] or "") is not None and len(e[2]) == 2 and e[2][1][0] == "const" and isinstance(e[2][1][1], int) and e[2][1][1] != 0,
+     "Duration / <non-zero integer literal>: Duration's Div<u32> panics only for a zero divisor"),
 ]
 
 
